@@ -11,13 +11,17 @@ def showErr : Err → String
   | .noScript => "noScript"
   | .ambiguous t => s!"ambiguous {t}"
 
+/-- tokens travel on a space-separated line: the empty token is written `%e`, a space inside a token `%20` -/
+def dec (t : String) : String := if t = "%e" then "" else t.replace "%20" " "
+def enc (t : String) : String := if t = "" then "%e" else t.replace " " "%20"
+
 def step (_ : Unit) (w : List String) : Unit × List String :=
   match w with
   | "parse" :: args =>
-    match parseCmdWith Generated.kernprofAllowAbbrev Generated.kernprofOptions args with
+    match parseCmdWith Generated.kernprofAllowAbbrev Generated.kernprofOptions (args.map dec) with
     | .ok c =>
       ((), [s!"ok {if c.isModule then "module" else "script"} {c.target} {c.outfile} {if c.opts.lineByLine then 1 else 0} {if c.opts.view then 1 else 0} | "
-            ++ " ".intercalate c.argv])
+            ++ " ".intercalate (c.argv.map enc)])
     | .error e => ((), ["err " ++ showErr e])
   | "pp" :: args =>
     match pp args with
